@@ -27,7 +27,7 @@ for d in seeded/${1}*/; do
 done
 fi
 if [ -z "$1" ] || [ "$1" = harmless ]; then
-for h in selftest/harmless/*.diff; do
+for h in selftest/harmless/${2}*.diff; do
   [ -f $h ] || continue
   props=$(head -1 $h | sed 's/^# props: //')
   for p in $props; do run_one $V/$h $p pass || fail=1; done
